@@ -296,6 +296,11 @@ def payload_for(draw, tname, depth):
     elif tname == "Fmx":
         if draw(st.booleans()):
             p["custom_waveform"] = draw(arr(f32, 256))
+            if draw(st.integers(0, 2)) == 0:
+                # every 32-bit pattern is a sample value: also the largest finite ones, the infinities and NaN
+                # (non-finite values travel through the JSON recipes as strings)
+                for _ in range(draw(st.integers(1, 4))):
+                    p["custom_waveform"][draw(st.integers(0, 255))] = draw(st.sampled_from(["inf", "-inf", "nan", 3.4028234663852886e38, -3.4028234663852886e38, 1.401298464324817e-45, -0.0]))
     elif tname in ("Generator", "AnalogGenerator"):
         if draw(st.booleans()):
             p["samples"] = draw(wave32)
@@ -552,7 +557,7 @@ def apply_payload(mod, tname, p):
             h.freq_hz, h.volume, h.width, h.type = freq, vol, width, cls.HarmonicType(typ)
     elif tname == "Fmx":
         if "custom_waveform" in p:
-            mod.custom_waveform.values = list(p["custom_waveform"])
+            mod.custom_waveform.values = [float(x) for x in p["custom_waveform"]]
     elif tname in ("Generator", "AnalogGenerator"):
         if "samples" in p:
             mod.drawn_waveform.samples = list(p["samples"])
